@@ -63,9 +63,10 @@ class RefPause:
         self.halted = True
         self.quit = False
         self.filter = 'all'      # the output filter must not influence halting, but it is part of the state
+        self.impl_bp = None      # the implementation's own printed breakpoint: states that print differently are not merged
 
     def key(self):
-        return [self.bp.key(), self.selection, self.halted, self.quit, self.filter]
+        return [self.bp.key(), self.selection, self.halted, self.quit, self.filter, self.impl_bp]
 
     def enabled(self):
         if self.quit:
@@ -159,6 +160,21 @@ def run_hist(init_bp, hist, check_from=0):
                     ref.quit = True
                 elif is_resume:
                     ref.halted = False
+                # merging is on the reference state: the implementation's observable state must equal it after every
+                # command (selected connection as marked in the listing; breakpoint printed as constant or not)
+                o0 = len(out.buffer)
+                env['ctl'].process_command('connection')
+                env['ctl'].process_command('breakpoint')
+                obs = sut._lines(out.buffer[o0:])
+                marked = [l.split()[1] for l in obs if l.lstrip().startswith('=>')]
+                bp_txt = [l[len('Breakpoint matcher: '):] for l in obs if l.startswith('Breakpoint matcher: ')]
+                ref.impl_bp = bp_txt[0] if bp_txt else None
+                if checked and marked != ([ref.selection] if ref.selection else []):
+                    V.append(Violation('halt.selection_state', case, {'step': n, 'command': text, 'expected_selected': ref.selection,
+                                                                      'listing_marks': marked}))
+                if checked and bp_txt and (bp_txt[0] in ('*', '!')) != (ref.bp.const is not None):
+                    V.append(Violation('halt.breakpoint_state', case, {'step': n, 'command': text, 'printed': bp_txt[0],
+                                                                       'reference': ref.bp.key()}))
     except Exception:
         V.append(sut.exc_violation(case))
     return V, ref
